@@ -545,6 +545,46 @@ def rule_alloc(rep: Report, cu: CUnit) -> None:
                       expected='if (!p) { PyErr_NoMemory / documented fallback }')
     if n_sites < 7:
         raise AnalysisError(f'C11.ALLOC: {n_sites} allocation sites found, 7 expected')
+    # element size: the type under every sizeof of an allocation (or of a mem* byte count) is the element type of the pointer
+    # the block is used through - `calloc(n, sizeof(p))` with p a pointer allocates n pointers, not n elements
+    def pointee(q: str) -> Optional[str]:
+        q = q.replace('const ', '').replace('volatile ', '').strip()
+        return q[:-1].strip() if q.endswith('*') else None
+    def unsugar(n: Dict[str, Any]) -> Dict[str, Any]:
+        while n.get('kind') in ('ImplicitCastExpr', 'ParenExpr') and n.get('inner'):
+            n = n['inner'][0]
+        return n
+    n_elem = 0
+    for name in cu.funcs:
+        body = cu.body(name)
+        for c in [x for x in walk(body) if x.get('kind') == 'CallExpr' and callee(x) in ('malloc', 'calloc', 'realloc', 'memset', 'memcpy', 'memmove')]:
+            kind = callee(c)
+            if kind in ('malloc', 'calloc', 'realloc'):
+                par = cu.parent(c)
+                while isinstance(par, dict) and par.get('kind') in ('ParenExpr', 'ImplicitCastExpr'):
+                    par = cu.parent(par)
+                want = pointee(par.get('type', {}).get('qualType', '')) if isinstance(par, dict) and par.get('kind') == 'CStyleCastExpr' else None
+                if want is None and isinstance(par, dict) and par.get('kind') == 'VarDecl':
+                    want = pointee(par.get('type', {}).get('qualType', ''))
+                size_args = call_args(c)[1:] if kind == 'realloc' else call_args(c)
+            else:
+                want = pointee(unsugar(call_args(c)[0]).get('type', {}).get('qualType', ''))
+                size_args = call_args(c)[2:]
+            if want in (None, 'void', 'char', 'unsigned char', 'uint8_t'):
+                continue
+            sizes = []
+            for a in size_args:
+                for u in walk(a):
+                    if u.get('kind') == 'UnaryExprOrTypeTraitExpr' and u.get('name') == 'sizeof':
+                        t = u.get('argType', {}).get('qualType')
+                        if t is None and u.get('inner'):
+                            t = unsugar(u['inner'][0]).get('type', {}).get('qualType')
+                        sizes.append((t or '?').replace('const ', '').strip())
+            n_elem += 1
+            rep.check(bool(sizes) and all(t == want for t in sizes), 'C11.ALLOC', f'{name}:{kind}:element size of {want}',
+                      f'sizeof operand type(s) {sizes}', cu.site(c, name), expected=f'sizeof({want}) - the element type of the pointer')
+    if n_elem < 7:
+        raise AnalysisError(f'C11.ALLOC: {n_elem} typed allocation / mem* sites found, 7 expected')
 
 
 _WLin = Tuple[int, int]          # (coefficient of w, constant): the value coef * w + const
